@@ -175,6 +175,38 @@ fn via_wrapper(prop: &str, pos: usize, line: &str, dist: &mut BTreeMap<String, u
     out
 }
 
+/// histories of the *other* properties' generators, judged with this property's statement (a judge states a property of
+/// every history, not only of the ones its own generator makes): `per` scenarios from each foreign generator
+pub fn foreign_scenarios(prop: &str, per: u64, seed: u64, dist: &mut BTreeMap<String, u64>) -> Vec<Vec<String>> {
+    foreign_scenarios_tagged(prop, per, seed, dist).into_iter().map(|(_, s)| s).collect()
+}
+
+pub fn foreign_scenarios_tagged(prop: &str, per: u64, seed: u64, dist: &mut BTreeMap<String, u64>) -> Vec<(String, Vec<String>)> {
+    let everything = ["C01", "C02", "C03", "C04", "C05", "C06", "C07", "C08", "C09", "C10", "C11", "C12", "C14", "C15", "C16", "C17", "C18", "C19", "C20"];
+    // KH_CROSS_ALL (edit-time, `kharness cross`): every generator, to find out which pairs are sound
+    let all: Vec<&str> = if std::env::var("KH_CROSS_ALL").is_ok() { everything.to_vec() } else { crate::cross::foreign_generators(prop).to_vec() };
+    let mut out = Vec::new();
+    let mut rng = Rng::new(seed ^ 0x5eed_f0e1);
+    for g in all.iter() {
+        if *g == prop {
+            continue;
+        }
+        let gen = generator(g).unwrap();
+        for i in 0..per {
+            let mut r = rng.fork();
+            let mut scratch = Dist::new();
+            // indices past the generators' exhaustive / fixed prefixes
+            let sc = gen(&mut r, &mut scratch, 100_000 + i);
+            if sc.len() > 400 {
+                continue;
+            }
+            *dist.entry(format!("foreign-history-{}", g)).or_insert(0) += 1;
+            out.push((g.to_string(), sc));
+        }
+    }
+    out
+}
+
 pub fn run(prop: &str, tier: &str, seed: u64, corpus: &[Vec<String>]) -> Report {
     let gen = generator(prop).expect("no generator for property");
     let n = budget(prop, tier);
@@ -196,8 +228,19 @@ pub fn run(prop: &str, tier: &str, seed: u64, corpus: &[Vec<String>]) -> Report 
         let sc = gen(&mut r, &mut rep.dist, i);
         scenarios.push(sc.into_iter().enumerate().map(|(k, l)| via_wrapper(prop, k, &l, &mut rep.dist)).collect());
     }
+    // the foreign phase: histories of the other properties' generators under this property's judge.  Only judged failures
+    // count there; a model/implementation difference on a foreign history is the subject of that history's own property.
+    let own = scenarios.len();
+    let per: u64 = match tier {
+        "thorough" => 60,
+        _ => 4 * std::env::var("KH_BUDGET_MULT").ok().and_then(|s| s.parse::<u64>().ok()).unwrap_or(1).max(1),
+    };
+    if std::env::var("KH_NO_FOREIGN").is_err() {
+        scenarios.extend(foreign_scenarios(prop, per, seed, &mut rep.dist));
+    }
     let running = std::env::var("KH_RUNNING_FILE").ok();
-    for sc in scenarios {
+    for (si, sc) in scenarios.into_iter().enumerate() {
+        let foreign = si >= own;
         if let Some(f) = &running {
             // should the process die inside this scenario (stack overflow, abort, watchdog), this file is the replay
             let _ = std::fs::write(f, sc.join("\n") + "\n");
@@ -215,7 +258,7 @@ pub fn run(prop: &str, tier: &str, seed: u64, corpus: &[Vec<String>]) -> Report 
         if !jj.is_empty() {
             rep.failures.push(Failure { kind: "judge", scenario: sc.clone(), lines: jj });
         }
-        if !mm.is_empty() {
+        if !mm.is_empty() && !foreign {
             rep.failures.push(Failure { kind: "mismatch", scenario: sc, lines: mm });
         }
         if rep.failures.len() > 40 {
